@@ -170,7 +170,8 @@ func handleSINTER(params internal.HandlerFuncParams) ([]byte, error) {
 
 	var sets []*Set
 
-	for key, exists := range keyExists {
+	for _, key := range keys.ReadKeys {
+		exists := keyExists[key]
 		if !exists {
 			return []byte("*0\r\n"), nil
 		}
@@ -235,7 +236,8 @@ func handleSINTERCARD(params internal.HandlerFuncParams) ([]byte, error) {
 
 	var sets []*Set
 
-	for key, exists := range keyExists {
+	for _, key := range keys.ReadKeys {
+		exists := keyExists[key]
 		if !exists {
 			return []byte(":0\r\n"), nil
 		}
@@ -266,9 +268,14 @@ func handleSINTERSTORE(params internal.HandlerFuncParams) ([]byte, error) {
 
 	var sets []*Set
 
-	for key, exists := range keyExists {
+	for _, key := range keys.ReadKeys {
+		exists := keyExists[key]
 		if !exists {
-			return []byte(":0\r\n"), err
+			// An absent operand makes the intersection empty; the destination still receives that result.
+			if err = params.SetValues(params.Context, map[string]interface{}{keys.WriteKeys[0]: NewSet([]string{})}); err != nil {
+				return nil, err
+			}
+			return []byte(":0\r\n"), nil
 		}
 		set, ok := params.GetValues(params.Context, []string{key})[key].(*Set)
 		if !ok {
